@@ -181,6 +181,11 @@ func runVacuum(c *Case, id string) {
 	w, err := newWorld(c, 0, epn)
 	defer w.close()
 	defer vclockDrop(w.st.Name)
+	if c.Index%8 == 4 {
+		// single-node trees (entries_per_node 4096) with the writers' node cache on
+		w.cache = 64
+		c.Count("cases_with_node_cache", 1)
+	}
 	// half of the cases let the statements' write times lag far behind the version clock, so that
 	// cutoffs can purge delete markers while every version is still retained
 	lag := 0
@@ -191,28 +196,65 @@ func runVacuum(c *Case, id string) {
 	}
 	tick := func() { vclock += r.Range(1, 6); vclockSet(w.st.Name, vclock) }
 	vclockSet(w.st.Name, vclock)
+	// openStamp[j]: the version clock when writer j last opened or refreshed its table. A
+	// version that j commits afterwards was created at or after that time: it may not carry an
+	// older creation time, or a cutoff in between would reclaim a version created after it.
+	openStamp := make([]int, nw)
 	for i := 0; i < nw; i++ {
 		if _, err = w.addWriter(); err != nil {
 			c.Violate(id+":create", err.Error(), nil)
 			return
 		}
+		openStamp[i] = vclock
 	}
 	h := &vhistory{w: w}
 	base := walk.Base(w.prefix)
 	cols := hcols
 	fail := func(sig, msg string) { c.Violate(id+":"+sig, msg, w.log) }
 	is09 := id == "C09"
+	refresh := func(j int) error {
+		err := w.refresh(j)
+		openStamp[j] = vclock
+		return err
+	}
+	seenVer := map[string]bool{}
+	// noteVersions looks at the version objects that appeared since the last call; with
+	// committers given, each of them was committed by one of those writers
+	noteVersions := func(committers ...int) {
+		for n, v := range vacGraph(w.st.Snapshot(), base) {
+			if seenVer[n] {
+				continue
+			}
+			seenVer[n] = true
+			if len(committers) == 0 || c.Res.Status == "violated" {
+				continue
+			}
+			oldest := openStamp[committers[0]]
+			for _, j := range committers {
+				if openStamp[j] < oldest {
+					oldest = openStamp[j]
+				}
+			}
+			c.Count("version_stamps_checked", 1)
+			if v.Created < tnanos(oldest) {
+				fail("version-stamped-before-its-handle-opened", fmt.Sprintf("version %s, committed by a connection that opened or refreshed the table at %s, records the creation time %s: a vacuum with a cutoff in between treats it as older than the cutoff",
+					n, tstr(oldest), time.Unix(0, v.Created).UTC().Format("2006-01-02 15:04:05")))
+			}
+		}
+	}
 
 	// ---------------------------------------------------------------- phase 1
 	steps := r.Range(8, 30)
 	stmt := func(wi int, kind string, key int, colsv map[string]string) bool {
 		tick()
 		s := HStmt{W: wi, Kind: kind, Key: key, T: vclock - lag, Cols: colsv}
+		noteVersions()
 		if _, err := w.exec(s); err != nil {
 			fail("statement-error", err.Error())
 			return false
 		}
-		return true
+		noteVersions(wi)
+		return c.Res.Status != "violated"
 	}
 	for i := 0; i < steps && c.Res.Status != "violated"; i++ {
 		wi := r.Intn(nw)
@@ -245,7 +287,7 @@ func runVacuum(c *Case, id string) {
 			}
 		case x < 92:
 			tick()
-			if err := w.refresh(wi); err != nil {
+			if err := refresh(wi); err != nil {
 				fail("refresh-error", err.Error())
 				return
 			}
@@ -253,21 +295,22 @@ func runVacuum(c *Case, id string) {
 			// an earlier vacuum, on a synchronised writer, with an old cutoff
 			tick()
 			for j := 0; j < nw; j++ {
-				w.refresh(j)
+				refresh(j)
 			}
 			tick()
-			w.refresh(wi)
+			refresh(wi)
 			cut := vclock - r.Range(20, 80)
 			res, err := w.ws[wi].conn.Rows("select * from s3db_vacuum('"+w.ws[wi].table+"', ?)", tstr(cut))
 			w.logf("w%d EARLIER VACUUM cutoff @%d -> %v %v", wi, cut, res, err)
 			for j := 0; j < nw; j++ {
 				tick()
-				w.refresh(j)
+				refresh(j)
 			}
 		}
 		if c.Res.Status == "violated" {
 			return
 		}
+		noteVersions()
 		if _, err := h.record(c, i, wi); err != nil {
 			fail("record-error", err.Error())
 			return
@@ -280,7 +323,7 @@ func runVacuum(c *Case, id string) {
 	for round := 0; round < 2; round++ {
 		for j := 0; j < nw; j++ {
 			tick()
-			if err := w.refresh(j); err != nil {
+			if err := refresh(j); err != nil {
 				fail("refresh-error", err.Error())
 				return
 			}
@@ -288,7 +331,7 @@ func runVacuum(c *Case, id string) {
 	}
 	tick()
 	A := w.ws[0]
-	if err := w.refresh(0); err != nil {
+	if err := refresh(0); err != nil {
 		fail("refresh-error", err.Error())
 		return
 	}
@@ -407,11 +450,15 @@ func runVacuum(c *Case, id string) {
 	c.Count("objects_deleted_by_vacuum", int64(deletedObjs))
 	post := w.st.Snapshot()
 
+	// skipAlsoCurrent: a superseded version whose retirement request failed stays listed under
+	// root/current; a vacuum that carries on reclaims its nodes like those of any superseded
+	// version (opens skip such a version); it is not a retained version either
+	skipAlsoCurrent := false
 	retainedOK := func(snap fs3.Snapshot, where string, skip map[string]bool) bool {
 		ok := true
 		for _, wh := range []string{"current", "merged"} {
 			for _, n := range walk.VersionNames(snap, base, wh) {
-				if skip[n] && wh == "merged" {
+				if skip[n] && (wh == "merged" || skipAlsoCurrent) {
 					continue
 				}
 				v := walk.Walk(snap, base, n)
@@ -692,7 +739,7 @@ func runVacuum(c *Case, id string) {
 	if is09 {
 		for j := 1; j < nw; j++ {
 			tick()
-			if err := w.refresh(j); err != nil {
+			if err := refresh(j); err != nil {
 				fail("refresh-after-vacuum", fmt.Sprintf("writer w%d cannot refresh after the vacuum: %v", j, err))
 				return
 			}
@@ -719,11 +766,11 @@ func runVacuum(c *Case, id string) {
 			for round := 0; round < 2; round++ {
 				for j := 0; j < nw; j++ {
 					tick()
-					w.refresh(j)
+					refresh(j)
 				}
 			}
 			tick()
-			w.refresh(0)
+			refresh(0)
 			if lag > 0 && c.Res.Status != "violated" {
 				// the table returns to the content of a version that is still retained: insert a
 				// fresh key, delete it, purge its marker with a cutoff older than every version
@@ -771,11 +818,112 @@ func runVacuum(c *Case, id string) {
 				if !retainedOK(w.st.Snapshot(), "after the final vacuum", nil) {
 					return
 				}
+				// the table returns to the content of a version that an earlier vacuum has reclaimed
+				// together with its nodes: insert a key, vacuum (the version before the insert goes,
+				// with the nodes only it used), delete the key, vacuum again (the marker is purged):
+				// the tree is the one from before the insert, and its nodes have to be stored again
+				kz := 9500 + c.Index
+				if stmt(0, "ins", kz, map[string]string{"a": "t:transient2"}) {
+					tick()
+					res, err := A.conn.Rows("select vacuum_error from s3db_vacuum('"+A.table+"', ?)", tstr(vclock+1000))
+					w.logf("w0 VACUUM after inserting the transient key, cutoff after everything -> %v %v", res, err)
+					if err != nil || len(res) != 1 || res[0] != "NULL" {
+						fail("vacuum-error", fmt.Sprintf("s3db_vacuum reported %v %v", res, err))
+						return
+					}
+					if !stmt(0, "del", kz, nil) {
+						return
+					}
+					tick()
+					res, err = A.conn.Rows("select vacuum_error from s3db_vacuum('"+A.table+"', ?)", tstr(vclock+1000))
+					w.logf("w0 VACUUM purging the transient key, cutoff after everything -> %v %v", res, err)
+					c.Count("returns_to_reclaimed_content", 1)
+					if err != nil || len(res) != 1 || res[0] != "NULL" {
+						fail("vacuum-error", fmt.Sprintf("s3db_vacuum reported %v %v", res, err))
+						return
+					}
+					fd, err := w.freshDump(true, "fresh-after-return")
+					if err != nil {
+						fail("unreadable-after-vacuum:fresh", "after the table returned to the content of a reclaimed version a fresh connection cannot read it: "+err.Error())
+						return
+					}
+					if d := firstDiff(before, fd); d != "" {
+						fail("rows-changed:fresh", "after the table returned to the content of a reclaimed version a fresh connection reads other rows: "+d)
+						return
+					}
+					if !retainedOK(w.st.Snapshot(), "after returning to the content of a reclaimed version", nil) {
+						return
+					}
+				}
+				// the same across connections: another writer inserts a row; the vacuuming connection
+				// deletes it and vacuums (marker purged, the version with the row and its nodes
+				// reclaimed); the other writer refreshes and replays the very same insert (same write
+				// time): its tree is again the reclaimed one and has to be stored again
+				if nw >= 2 && c.Res.Status != "violated" {
+					B := w.ws[1]
+					kr := 9700 + c.Index
+					tick()
+					refresh(1)
+					tr := vclock - lag
+					ins := fmt.Sprintf("insert into %s(k,a) values (%d,'replayed')", B.table, kr)
+					B.conn.SetWriteTime(tr)
+					if err := B.conn.Exec(ins); err != nil {
+						fail("write-after-vacuum", "a write after the vacuum failed: "+err.Error())
+						return
+					}
+					w.logf("w1 @%d ins k%d a=replayed", tr, kr)
+					withRow, err := B.conn.Dump(B.table)
+					if err != nil {
+						fail("dump-error", err.Error())
+						return
+					}
+					tick()
+					refresh(0)
+					A.conn.SetWriteTime(vclock - lag)
+					if err := A.conn.Exec(fmt.Sprintf("delete from %s where k=%d", A.table, kr)); err != nil {
+						fail("write-after-vacuum", "a write after the vacuum failed: "+err.Error())
+						return
+					}
+					tick()
+					res, err := A.conn.Rows("select vacuum_error from s3db_vacuum('"+A.table+"', ?)", tstr(vclock+1000))
+					w.logf("w0 del k%d; VACUUM cutoff after everything -> %v %v", kr, res, err)
+					if err != nil || len(res) != 1 || res[0] != "NULL" {
+						fail("vacuum-error", fmt.Sprintf("s3db_vacuum reported %v %v", res, err))
+						return
+					}
+					tick()
+					refresh(1)
+					B.conn.SetWriteTime(tr)
+					if err := B.conn.Exec(ins); err != nil {
+						fail("write-after-vacuum", "replaying an insert after another connection's vacuum failed: "+err.Error())
+						return
+					}
+					w.logf("w1 REFRESH; @%d ins k%d a=replayed (replay)", tr, kr)
+					c.Count("replays_after_foreign_vacuum", 1)
+					fd, err := w.freshDump(true, "fresh-after-replay")
+					if err != nil {
+						fail("unreadable-after-vacuum:fresh", "after a writer replayed an insert that another connection had deleted and vacuumed, a fresh connection cannot read the table: "+err.Error())
+						return
+					}
+					if d := firstDiff(withRow, fd); d != "" {
+						fail("rows-changed:fresh", "after a writer replayed an insert that another connection had deleted and vacuumed, a fresh connection reads other rows than the writer did: "+d)
+						return
+					}
+					if !retainedOK(w.st.Snapshot(), "after a replayed insert", nil) {
+						return
+					}
+				}
 			}
 		}
 		if c.Index%3 == 0 && muts > 0 && muts <= 60 {
 			c.Count("crash_sweeps", 1)
-			for k := 0; k <= muts; k++ {
+			for kk := 0; kk <= 2*muts; kk++ {
+				// even: the process dies at mutating request k (k=0: before the first); odd: request k
+				// fails once and the same connection carries on
+				k, errMode := kk/2, kk%2 == 1
+				if errMode && k == 0 {
+					continue
+				}
 				st2 := newStore()
 				st2.Restore(pre)
 				vclockSet(st2.Name, vclock)
@@ -791,16 +939,63 @@ func runVacuum(c *Case, id string) {
 				}
 				cl := st2.Client("crash")
 				cl.ResetCounters()
-				if k == 0 {
+				switch {
+				case errMode:
+					cl.AddFault(fs3.Fault{AtMut: k, Action: "error"})
+				case k == 0:
 					cl.AddFault(fs3.Fault{AtMut: 1, Action: "crash-before"})
-				} else {
+				default:
 					cl.AddFault(fs3.Fault{AtMut: k, Action: "crash-after"})
 				}
 				conn.Rows("select vacuum_error from s3db_vacuum('"+t+"', ?)", tstr(cutoff))
-				conn.Close()
-				c.Count("crash_points", 1)
-				frozen := st2.Snapshot()
 				okc := true
+				preDump := preDump
+				if errMode {
+					// the vacuum failed part-way; the connection goes on: it reads what it read before,
+					// and what it writes next must be complete in the bucket
+					cl.ClearFaults()
+					c.Count("failed_vacuum_points", 1)
+					crashWhere := fmt.Sprintf("vacuum (cutoff %s) whose mutating request %d of %d failed", tstr(cutoff), k, muts)
+					d, err := conn.Dump(t)
+					if err != nil {
+						fail("failed-vacuum:connection-unreadable", crashWhere+": the same connection cannot read the table any more: "+err.Error())
+						okc = false
+					} else if df := firstDiff(preDump, d); df != "" {
+						fail("failed-vacuum:rows-changed", crashWhere+": the same connection reads other rows: "+df)
+						okc = false
+					} else {
+						conn.SetWriteTime(vclock - lag + 50)
+						if err := conn.Exec(fmt.Sprintf("insert into %s(k,a) values (%d,'after-failed-vacuum')", t, 9900)); err != nil {
+							fail("failed-vacuum:write-fails", crashWhere+": the same connection cannot write afterwards: "+err.Error())
+							okc = false
+						} else if d, err = conn.Dump(t); err == nil {
+							preDump = d
+						}
+					}
+				} else {
+					c.Count("crash_points", 1)
+				}
+				conn.Close()
+				frozen := st2.Snapshot()
+				if !okc {
+					dropStore(st2)
+					vclockDrop(st2.Name)
+					return
+				}
+				logLen := len(w.log)
+				{
+					var evs []string
+					for _, ev := range st2.Log() {
+						if ev.Op == fs3.OpPut || ev.Op == fs3.OpDel {
+							evs = append(evs, fmt.Sprintf("%s %s %s %s", ev.Client, ev.Op, shortKey(ev.Key), ev.Res))
+						}
+					}
+					w.logf("mutating requests of this sweep point: %s", strings.Join(evs, "; "))
+				}
+				sigm, how := "crash", fmt.Sprintf("vacuum (cutoff %s) crashed after mutating request %d of %d", tstr(cutoff), k, muts)
+				if errMode {
+					sigm, how = "failed-vacuum", fmt.Sprintf("vacuum (cutoff %s) whose mutating request %d of %d failed, then an insert on the same connection", tstr(cutoff), k, muts)
+				}
 				for _, ro := range []bool{true, false, true} {
 					c2 := OpenConn("rec")
 					t2 := tname(c, "rec")
@@ -813,12 +1008,12 @@ func runVacuum(c *Case, id string) {
 					}
 					c2.Close()
 					if err != nil {
-						fail("crash:open-fails", fmt.Sprintf("vacuum (cutoff %s) crashed after mutating request %d of %d: recovery open (readonly=%v) fails: %v", tstr(cutoff), k, muts, ro, err))
+						fail(sigm+":open-fails", fmt.Sprintf("%s: recovery open (readonly=%v) fails: %v", how, ro, err))
 						okc = false
 						break
 					}
 					if df := firstDiff(preDump, d); df != "" {
-						fail("crash:rows-changed", fmt.Sprintf("vacuum crashed after mutating request %d of %d: rows differ: %s", k, muts, df))
+						fail(sigm+":rows-changed", fmt.Sprintf("%s: a new connection reads other rows: %s", how, df))
 						okc = false
 						break
 					}
@@ -834,13 +1029,16 @@ func runVacuum(c *Case, id string) {
 						}
 					}
 					_, gone := retentionRule(gf, walk.VersionNames(frozen, base, "current"), cutNanos)
-					okc = retainedOK(frozen, fmt.Sprintf("vacuum crashed after mutating request %d of %d", k, muts), gone)
+					skipAlsoCurrent = errMode
+					okc = retainedOK(frozen, how, gone)
+					skipAlsoCurrent = false
 				}
 				dropStore(st2)
 				vclockDrop(st2.Name)
 				if !okc {
 					return
 				}
+				w.log = w.log[:logLen]
 			}
 		}
 	}
